@@ -190,8 +190,8 @@ Section Generic.
   Definition alg_row_ok (cis : list (F * F)) (X : list (list F)) (T : nat) (linear : bool)
              (a : list F) (L tol : F) : bool :=
     if linear then
-      (* line_currents = np.abs(v) @ rates ; line_currents <= limits[j] + tol[j] *)
-      forallb (fun t => g_utils_ok_linear K L (dot (map (fabs K) a) (col t X)) tol) (seq 0 T)
+      (* line_currents = np.abs(np.abs(v) @ rates) ; line_currents <= limits[j] + tol[j] *)
+      forallb (fun t => g_utils_ok_linear K L (fabs K (dot (map (fabs K) a) (col t X))) tol) (seq 0 T)
     else
       (* a = [v*cos; v*sin]; norm(a @ rates, axis=0) <= limits[j] + tol[j] *)
       forallb (fun t => mag_le (dot (vmul a (map fst cis)) (col t X),
